@@ -18,6 +18,7 @@ mod p15;
 mod p16;
 mod p17;
 mod p18;
+mod p19;
 mod p04;
 mod p05;
 mod p12;
@@ -98,6 +99,7 @@ fn main() {
         "C18" => p18::run(&cfg, &mut rng, &mut out),
         "C14" => p14::run(&cfg, &mut rng, &mut out),
         "C03" => p03::run(&cfg, &mut rng, &mut out),
+        "C19" => p19::run(&cfg, &mut rng, &mut out),
         "C04" => p04::run(&cfg, &mut rng, &mut out),
         "C05" => p05::run(&cfg, &mut rng, &mut out),
         "C12" => p12::run(&cfg, &mut rng, &mut out),
